@@ -813,8 +813,16 @@ impl CatalogPersistence {
     pub fn save(catalog: &Catalog, path: &Path) -> Result<()> {
         let catalog_bytes = Self::serialize(catalog).wrap_err("failed to serialize catalog")?;
 
-        let mut file = File::create(path)
-            .wrap_err_with(|| format!("failed to create catalog file at '{}'", path.display()))?;
+        // Write the new catalog next to the live one and rename it into place once it is
+        // durable: truncating the live file first would leave no catalog at all if the
+        // process died (or power was lost) before the new bytes were written and synced.
+        let mut tmp_name = path.as_os_str().to_os_string();
+        tmp_name.push(".tmp");
+        let tmp_path = std::path::PathBuf::from(tmp_name);
+
+        let mut file = File::create(&tmp_path).wrap_err_with(|| {
+            format!("failed to create catalog file at '{}'", tmp_path.display())
+        })?;
 
         let mut header = vec![0u8; HEADER_SIZE];
 
@@ -849,6 +857,14 @@ impl CatalogPersistence {
 
         file.sync_all()
             .wrap_err("failed to sync catalog file to disk")?;
+        drop(file);
+
+        std::fs::rename(&tmp_path, path).wrap_err_with(|| {
+            format!(
+                "failed to move catalog file '{}' into place",
+                tmp_path.display()
+            )
+        })?;
 
         Ok(())
     }
